@@ -22,6 +22,27 @@ CHECKS = {
  "C05": ("exploration", "runtime monitoring: conservation invariant checked after every single step + counting-loop accounting through the public API + INT window sweep + once-per-frame counter",
          "A: sum of independently predicted step durations == wraps*FRAME+clock-clock0 after every step of random programs crossing a frame end; B: counting loop cost vs k*n*FRAME under emulate_frames(FrameCount(n)); C: INT accepted iff boundary T in [0,32) at every T around the frame start for IM0/1/2; D: IM2 handler of 43..407 T runs exactly once per frame under 5 main-loop kinds.",
          ZNOTE + " Step durations = reference cycles + contention model (validated by C04).", "DESIGN.md §3 C05"),
+ "C06": ("exploration", "runtime monitoring: unambiguous-history (per-byte bank markers, fresh write values) checked against an executable latch/bank model",
+         "Exhaustive 64 latch states x 256 paging values with marker probes through the CPU and peek; random histories of emulated OUT (latch aliases, non-latch ports, lock), LD (nn),A, LDIR across window borders on both machines with embedded and host ROM sets; 16 probes after every operation and a full 65536-address + all-bank (hook) sweep every 64 operations.",
+         "Model typed from the statement; ports generated only where exactly one device decodes; 32 scratch bytes of bank 2 not judged.", "DESIGN.md §3 C06"),
+ "C07": ("exploration", "runtime monitoring: exhaustive port sweep with device fingerprints (read value identifies the source, state diff after every write) + floating-bus set oracle",
+         "All 65536 ports x read/write per configuration ({48K,128K} x Kempston x mouse x extender none/exact/random; 8 quick, 56 thorough) through emulated IN/OUT instruction forms; unclaimed ports read at sampled (thorough: every) frame T-state against the floating-bus set oracle.",
+         "Decode table typed from the statement; multi-device ports unjudged; mouse required only at xxDF/A9=1, every other A5=0 port treated as possibly-mouse when the mouse is enabled; bits 5-7 of ULA reads unjudged.", "DESIGN.md §3 C07"),
+ "C08": ("exploration", "runtime monitoring: frame buffer of completed frames compared pixel-exactly with an independent decode of the installed screen bytes",
+         "Random/structured screens installed through 10 paths (CPU stores and LDIR through 0x4000/0xC000, bank 7 shown, tape fast-load, SNA incl. bank-7-shown, SCR, pokes, bank toggling) on both machines, then quiet frames; 56-frame flash runs; single stores at random beam times judged when >= 2 lines before/after the fetch.",
+         "Decode typed from the statement; flash phase free (period pinned); SZX path covered by C14.", "DESIGN.md §3 C08"),
+ "C09": ("exploration", "runtime monitoring: offline checker of every completed border frame against a beam-time model over the recorded port-write log",
+         "OUTs to random even ULA ports at scripted frame clocks (0-40 per frame, bursts within a line, retrace, last/first 30 T, same colour, no-write frames, snapshot border) on both machines; all 32k border pixels of every frame judged (+-8 T), border_color() after every write.",
+         "Write instant known only to lie inside the OUT instruction's [start+4,end] interval (frame-clock hook).", "DESIGN.md §3 C09"),
+ "C10": ("exploration", "runtime monitoring: request histories against the real ROM trap compared with a sequential LD-BYTES model; end-of-tape lockstep with a silent-tape twin",
+         "Random TAP images x request histories (LOAD/VERIFY, flag match/mismatch, DE incl. 0 and >= FF00, IX anywhere, buffer-boundary lengths, bad checksums, truncated tails, requests past the end); IX, DE, carry and all RAM compared with the ld_bytes model transcribed from the ROM listing (itself validated against the real-time ROM by C11).",
+         "ld_bytes model (harness/src/spec_tape.rs) is the trusted base, cross-checked by C11's real-time part; 'never completes' restated as no successful return within 20 frames + lockstep equality with a machine that has no tape.", "DESIGN.md §3 C10"),
+ "C11": ("exploration", "runtime monitoring: offline pulse classifier/parser over the recorded EAR edge log under adversarial step partitions; real-time ROM load differential",
+         "Real Tap pulse generator driven with 6 families of 1..16 T step partitions; every pulse classified into [nominal, nominal+32], pilot counts exact, every block re-decoded bit by bit (all 256 byte values); real ROM loading in real time compared with the fast loader and the model.",
+         "Uses the rustzx_core::verif re-export of the crate-private Tap.", "DESIGN.md §3 C11"),
+ "C12": ("exploration", "runtime monitoring: command histories against a reference cassette deck; edge log parsed in concatenated playing time",
+         "Scripted/random histories over {play, stop, rewind, advance} at mid-pilot/sync/byte/bit/pause/after-end positions incl. repeated commands, at Tap level and through Emulator::{play,stop,rewind}_tape with EAR sampled by emulated IN; frozen level while stopped, blocks each once in order, clean pilot after rewind/end.",
+         "Uses the rustzx_core::verif re-export; at emulator level end-of-tape is inferred from silence.", "DESIGN.md §3 C12"),
  "C17": ("exploration", "runtime monitoring: history + executable held-controls model, ports read by single-stepped IN",
          "Random event histories over every control of every input source; after every event all input ports are read through emulated IN instructions and compared with a model written from the statement. Held on the histories observed (10^5 events quick, 10^7 thorough).",
          "Trusts the keyboard matrix / Sinclair / compound tables typed into the harness from the statement; single-stepping uses the public DebugInterface; known finding sinclair2-down-maps-to-N2 is matched only by its exact signature.",
